@@ -148,6 +148,14 @@ void jls_statistics_combine(struct jls_statistics_s *tgt,
     } else {
         f1 = a->k / (double) kt;
         double mean_new = f1 * a->mean + (1.0 - f1) * b->mean;
+        // rounding must not move the weighted mean outside the interval of the two means
+        double mean_lo = (a->mean < b->mean) ? a->mean : b->mean;
+        double mean_hi = (a->mean > b->mean) ? a->mean : b->mean;
+        if (mean_new < mean_lo) {
+            mean_new = mean_lo;
+        } else if (mean_new > mean_hi) {
+            mean_new = mean_hi;
+        }
         m1_diff = a->mean - mean_new;
         m2_diff = b->mean - mean_new;
         tgt->s = (a->s + a->k * m1_diff * m1_diff) +
